@@ -67,7 +67,8 @@ func wasiCall(mod api.Module, params []uint64, n int) bool {
 //@   modifies nothing
 //@ iface (m api.Memory) WriteUint64Le(offset uint32, v uint64) bool
 //@   ensures r0 == (uint64(offset)+8 <= memBytes(m))
-//@   modifies nothing
+//@   ensures verif_ghost_int("w64Off") == int(offset) && verif_ghost_int("w64Val") == int(v)
+//@   modifies ghost("w64Off"), ghost("w64Val")
 //@ iface (m api.Memory) Write(offset uint32, v []byte) bool
 //@   ensures r0 == (uint64(offset)+uint64(len(v)) <= memBytes(m))
 //@   modifies nothing
@@ -311,3 +312,27 @@ func wasiCall(mod api.Module, params []uint64, n int) bool {
 //@   sweep
 //@   alloc-bound 64*memBytes(mod.Memory()) + 1<<20
 
+
+
+// ---- C16: the WASI glue of the positioning calls passes the guest's arguments to the file unchanged
+// and reports the file's answer (ghost registers record the last File.Seek and the last 64-bit store).
+func gi(n string) int { return verif_ghost_int(n) }
+
+//@ prop C16
+//@ case seek fdSeekFn(ctx context.Context, mod api.Module, params []uint64) experimentalsys.Errno
+//@   requires wasiCall(mod, params, 4)
+//@   ensures[asks-the-file-exactly-that] r0 == 0 ==> gi("seekCalls") == old(gi("seekCalls")) + 1 && gi("seekOff") == int(int64(params[1])) && gi("seekWhence") == int(uint32(params[2]))
+//@   ensures[reports-the-files-answer] r0 == 0 ==> gi("w64Off") == int(uint32(params[3])) && gi("w64Val") == gi("seekRes")
+//@   nosafety
+
+//@ case tell fdTellFn(ctx context.Context, mod api.Module, params []uint64) experimentalsys.Errno
+//@   requires wasiCall(mod, params, 2)
+//@   ensures[tell-is-seek-current-0] r0 == 0 ==> gi("seekCalls") == old(gi("seekCalls")) + 1 && gi("seekOff") == 0 && gi("seekWhence") == 1
+//@   ensures[reports-the-files-answer] r0 == 0 ==> gi("w64Off") == int(uint32(params[1])) && gi("w64Val") == gi("seekRes")
+//@   nosafety
+//@   inline-calls fdSeekFn
+
+//@ case set-size fdFilestatSetSizeFn(ctx context.Context, mod api.Module, params []uint64) experimentalsys.Errno
+//@   requires wasiCall(mod, params, 2)
+//@   ensures[truncates-to-exactly-that-size] r0 == 0 ==> gi("truncCalls") == old(gi("truncCalls")) + 1 && gi("truncSize") == int(int64(params[1]))
+//@   nosafety
